@@ -18,7 +18,7 @@ func init() {
 			"Oracle: an explicit depth-counting tree walk written in the harness (object members form an unordered group). Non-trivial: the document is a container; distinct by (tree, path)",
 		Run:          runC15,
 		Replay:       replayC15,
-		MinExercised: map[string]int64{"anykey": 500, "anyarray": 500, "anylevel": 20000, "anylevel.last": 2000, "equiv.unbounded": 500, "anylevel.chain": 5000, "equiv.kfold": 2000, "strict.skip": 5000, "exists": 5000},
+		MinExercised: map[string]int64{"anykey": 500, "anyarray": 500, "anylevel": 20000, "anylevel.last": 2000, "equiv.unbounded": 500, "anylevel.chain": 5000, "anylevel.aliased": 2000, "equiv.kfold": 2000, "strict.skip": 5000, "exists": 5000},
 		Assumptions:  []string{"object member order is open: results are compared as sequences in which the members of one object may appear in any order (all orders enumerated for objects of <= 3 members)"},
 	})
 }
@@ -512,10 +512,53 @@ func checkAnyChain(c *h.Ctx, docText string, s1, s2 string, lax bool) {
 	}
 }
 
+// checkAliased: a document in which the same Go value occurs at several
+// positions (a caller assembling a document from shared parts) is traversed
+// like its deep copy: every occurrence is a node of its own.
+func checkAliased(c *h.Ctx, docText string, lax bool) {
+	v := h.Decode(docText, c15UseNum)
+	if !isContainer(v) {
+		return
+	}
+	var aliased any = []any{v, map[string]any{"k": v, "l": []any{v}}, v}
+	b, err := json.Marshal(aliased)
+	if err != nil {
+		return
+	}
+	copyDoc := h.Decode(string(b), c15UseNum)
+	mode := ""
+	if !lax {
+		mode = "strict "
+	}
+	for _, sp := range []string{".**", ".**{1 to 3}", ".**{2}", ".**{last}", ".**{3 to last}", ".**.*", ".** ? (@.type() == \"number\")", "[*].**{1}", ".**{2}.**{1}"} {
+		p := cachedPath(mode + "$" + sp)
+		if p == nil {
+			continue
+		}
+		oa := h.Call("query", p, aliased, h.Opts{})
+		oc := h.Call("query", p, copyDoc, h.Opts{})
+		ea := h.Call("exists", p, aliased, h.Opts{})
+		ec := h.Call("exists", p, copyDoc, h.Opts{})
+		c.Eval(4)
+		c.Distinct("alias", docText, mode+sp)
+		cs := h.Case{Kind: "alias", Path: mode + "$" + sp, Doc: docText, UseNum: c15UseNum}
+		same := oa.Class == oc.Class && (oa.Class != h.OK || h.CanonBag(oa.Items) == h.CanonBag(oc.Items)) && ea.Class == ec.Class && ea.Bool == ec.Bool
+		if !same {
+			c.Violate("anylevel.aliased", h.F("mode", modeName(lax)), fmt.Sprintf("Query(%s) on [v, {k: v, l: [v]}, v] with one shared v = %s: %d items %s; on its deep copy %d items %s (Exists: %s / %s)", cs.Path, docText, len(oa.Items), oa.Summary(), len(oc.Items), oc.Summary(), ea.Summary(), ec.Summary()), cs)
+		} else {
+			c.Held("anylevel.aliased")
+		}
+	}
+}
+
 var c15ChainSpecs = []string{".**", ".**{1}", ".**{2}", ".**{3}", ".**{1 to 2}", ".**{2 to 3}", ".**{2 to last}", ".**{last}", ".*", "[*]", ".**{0 to 1}"}
 
 func replayC15(c *h.Ctx, cs h.Case) {
 	c15UseNum = cs.UseNum
+	if cs.Kind == "alias" {
+		checkAliased(c, cs.Doc, !strings.HasPrefix(cs.Path, "strict "))
+		return
+	}
 	if cs.Kind == "chain" {
 		checkAnyChain(c, cs.Doc, cs.Extra["s1"], cs.Extra["s2"], !strings.HasPrefix(cs.Path, "strict "))
 		return
@@ -559,6 +602,9 @@ func runC15(c *h.Ctx) {
 		s1 := c15ChainSpecs[r.IntN(len(c15ChainSpecs))]
 		s2 := c15ChainSpecs[r.IntN(8)]
 		checkAnyChain(c, d, s1, s2, r.IntN(3) > 0)
+		if i%6 == 0 {
+			checkAliased(c, d, i%12 == 0)
+		}
 		if i%5 == 0 {
 			// ... and three deep
 			checkAnyChain(c, d, s1+c15ChainSpecs[r.IntN(8)], s2, true)
